@@ -4,6 +4,7 @@ import (
 	"strconv"
 
 	"github.com/BondMachineHQ/BondMachine/pkg/procbuilder"
+	"github.com/BondMachineHQ/BondMachine/pkg/simbox"
 )
 
 // C04 (simulator side): one producer (r2owa on o0) bonded to k consumers (i2rw
@@ -13,9 +14,19 @@ import (
 // with (got), and asserts exactly-once, in-order delivery.
 //
 // mode 0: the property as stated. mode 1: the two situations recorded as known
-// findings are assumed away, everything else must hold.
+// findings are assumed away, everything else must hold. The producer-side
+// situation is pinned to its cause - an r2owa that starts on the tick right
+// after the previous r2owa retired, before the consumers have lowered received -
+// so that a received flag stuck high for any other reason is still reported.
+// The consumer-side situation (i2rw executing while valid and this input's
+// received flag are both still high) cannot be pinned in time: with fan-out 2 a
+// slow sibling consumer keeps valid high arbitrarily long.
+//
+// delaymax > 0: every opcode gets a per-opcode delay distribution with a single
+// delay, a solver variable in 0..delaymax (the simulator's model of instruction
+// latency, SimDelayMap).
 
-func zzC04(k int, nwords int, T int, mode int) {
+func zzC04(k int, nwords int, T int, mode int, delaymax int) {
 	bm := new(Bondmachine)
 	bm.Rsize = 8
 	prod := zzPMachine(8, 1, 0, 1, 0, 2, "inc,j,nop,r2owa")
@@ -36,6 +47,15 @@ func zzC04(k int, nwords int, T int, mode int) {
 	}
 	vm := new(VM)
 	vm.Bmach = bm
+	if delaymax > 0 {
+		sd := simbox.NewSimDelays()
+		for _, op := range []string{"cpy", "i2rw", "inc", "j", "nop", "r2owa"} {
+			d := zzNondetU8("delay-" + op)
+			zzAssume(int(d) <= delaymax)
+			sd.OpcodeDelays[op] = simbox.DelayDistribution{int32(d): 1}
+		}
+		vm.SimDelayMap = sd
+	}
 	vm.Init()
 	vm.Launch_processors(nil)
 	for p := range vm.Processors {
@@ -49,6 +69,7 @@ func zzC04(k int, nwords int, T int, mode int) {
 	ns := 0
 	var got [3][16]uint8
 	var ng [3]int
+	lastRetire := -100
 	for t := 0; t < T; t++ {
 		P := vm.Processors[0]
 		prePc := P.Pc
@@ -66,7 +87,7 @@ func zzC04(k int, nwords int, T int, mode int) {
 		}
 		if mode == 1 {
 			// known finding (ii): an r2owa starts a new offer while received is still high from the previous transfer
-			zzAssume(!(pid == r2owa && !P.OutputsValid[0] && allRecv))
+			zzAssume(!(pid == r2owa && !P.OutputsValid[0] && allRecv && t-lastRetire <= 1))
 			// known finding (i): an i2rw executes while its input's received flag is still high from the previous capture
 			for c := 0; c < k; c++ {
 				C := vm.Processors[c+1]
@@ -74,9 +95,18 @@ func zzC04(k int, nwords int, T int, mode int) {
 			}
 		}
 		vm.Step(nil)
+		if delaymax > 0 && t == T-1 {
+			if P.DelayCounter > 0 {
+				zzReach("producer-inside-a-delay")
+			}
+			if vm.Processors[1].DelayCounter > 0 {
+				zzReach("consumer-inside-a-delay")
+			}
+		}
 		if pid == r2owa && P.Pc != prePc {
 			sent[ns] = P.Outputs[0].(uint8)
 			ns++
+			lastRetire = t
 		}
 		for c := 0; c < k; c++ {
 			C := vm.Processors[c+1]
@@ -108,6 +138,6 @@ func zzDispatch(name string, args []string) {
 	atoi := func(s string) int { v, _ := strconv.Atoi(s); return v }
 	switch name {
 	case "zzC04":
-		zzC04(atoi(args[0]), atoi(args[1]), atoi(args[2]), atoi(args[3]))
+		zzC04(atoi(args[0]), atoi(args[1]), atoi(args[2]), atoi(args[3]), atoi(args[4]))
 	}
 }
